@@ -5,7 +5,8 @@
    `bin/mkprops.py`, then kept as source).  What is proved and what is partial: DESIGN.md §4. -/
 import Peppi.Lemmas.C13
 import Peppi.Lemmas.Transpose
-import Peppi.PremisesViews
+import Peppi.PremisesCore
+import Peppi.PremisesRow
 import Peppi.Lemmas.C12Cols
 set_option linter.unusedVariables false
 namespace Peppi.Props.C13
@@ -39,60 +40,115 @@ theorem items_slice (h : List FrameOcc) (idx : Nat) (hidx : idx < h.length) :
     itemsView (offsOf h) ((h.flatMap (·.items)).map some) idx = some ((h[idx]).items.map some) :=
   _root_.Peppi.items_slice h idx hidx
 
-/- from `Peppi.PremisesViews` -/
+/- from `Peppi.PremisesCore` -/
 open Extracted in
-theorem views_End : structOK true true End.views = true :=
-  _root_.Peppi.views_End 
+theorem core_End : structCoreOK true true End.views = true :=
+  _root_.Peppi.core_End 
 
-/- from `Peppi.PremisesViews` -/
+/- from `Peppi.PremisesCore` -/
 open Extracted in
-theorem views_Item : structOK false true Item.views = true :=
-  _root_.Peppi.views_Item 
+theorem core_Item : structCoreOK false true Item.views = true :=
+  _root_.Peppi.core_Item 
 
-/- from `Peppi.PremisesViews` -/
+/- from `Peppi.PremisesCore` -/
 open Extracted in
-theorem views_ItemMisc : structOK false false ItemMisc.views = true :=
-  _root_.Peppi.views_ItemMisc 
+theorem core_ItemMisc : structCoreOK false false ItemMisc.views = true :=
+  _root_.Peppi.core_ItemMisc 
 
-/- from `Peppi.PremisesViews` -/
+/- from `Peppi.PremisesCore` -/
 open Extracted in
-theorem views_Position : structOK false true Position.views = true :=
-  _root_.Peppi.views_Position 
+theorem core_Position : structCoreOK false true Position.views = true :=
+  _root_.Peppi.core_Position 
 
-/- from `Peppi.PremisesViews` -/
+/- from `Peppi.PremisesCore` -/
 open Extracted in
-theorem views_Post : structOK false true Post.views = true :=
-  _root_.Peppi.views_Post 
+theorem core_Post : structCoreOK false true Post.views = true :=
+  _root_.Peppi.core_Post 
 
-/- from `Peppi.PremisesViews` -/
+/- from `Peppi.PremisesCore` -/
 open Extracted in
-theorem views_Pre : structOK false true Pre.views = true :=
-  _root_.Peppi.views_Pre 
+theorem core_Pre : structCoreOK false true Pre.views = true :=
+  _root_.Peppi.core_Pre 
 
-/- from `Peppi.PremisesViews` -/
+/- from `Peppi.PremisesCore` -/
 open Extracted in
-theorem views_Start : structOK false true Start.views = true :=
-  _root_.Peppi.views_Start 
+theorem core_Start : structCoreOK false true Start.views = true :=
+  _root_.Peppi.core_Start 
 
-/- from `Peppi.PremisesViews` -/
+/- from `Peppi.PremisesCore` -/
 open Extracted in
-theorem views_StateFlags : structOK false false StateFlags.views = true :=
-  _root_.Peppi.views_StateFlags 
+theorem core_StateFlags : structCoreOK false false StateFlags.views = true :=
+  _root_.Peppi.core_StateFlags 
 
-/- from `Peppi.PremisesViews` -/
+/- from `Peppi.PremisesCore` -/
 open Extracted in
-theorem views_TriggersPhysical : structOK false true TriggersPhysical.views = true :=
-  _root_.Peppi.views_TriggersPhysical 
+theorem core_TriggersPhysical : structCoreOK false true TriggersPhysical.views = true :=
+  _root_.Peppi.core_TriggersPhysical 
 
-/- from `Peppi.PremisesViews` -/
+/- from `Peppi.PremisesCore` -/
 open Extracted in
-theorem views_Velocities : structOK false true Velocities.views = true :=
-  _root_.Peppi.views_Velocities 
+theorem core_Velocities : structCoreOK false true Velocities.views = true :=
+  _root_.Peppi.core_Velocities 
 
-/- from `Peppi.PremisesViews` -/
+/- from `Peppi.PremisesCore` -/
 open Extracted in
-theorem views_Velocity : structOK false true Velocity.views = true :=
-  _root_.Peppi.views_Velocity 
+theorem core_Velocity : structCoreOK false true Velocity.views = true :=
+  _root_.Peppi.core_Velocity 
+
+/- from `Peppi.PremisesRow` -/
+open Extracted in
+theorem row_End : structRowOK End.views = true :=
+  _root_.Peppi.row_End 
+
+/- from `Peppi.PremisesRow` -/
+open Extracted in
+theorem row_Item : structRowOK Item.views = true :=
+  _root_.Peppi.row_Item 
+
+/- from `Peppi.PremisesRow` -/
+open Extracted in
+theorem row_ItemMisc : structRowOK ItemMisc.views = true :=
+  _root_.Peppi.row_ItemMisc 
+
+/- from `Peppi.PremisesRow` -/
+open Extracted in
+theorem row_Position : structRowOK Position.views = true :=
+  _root_.Peppi.row_Position 
+
+/- from `Peppi.PremisesRow` -/
+open Extracted in
+theorem row_Post : structRowOK Post.views = true :=
+  _root_.Peppi.row_Post 
+
+/- from `Peppi.PremisesRow` -/
+open Extracted in
+theorem row_Pre : structRowOK Pre.views = true :=
+  _root_.Peppi.row_Pre 
+
+/- from `Peppi.PremisesRow` -/
+open Extracted in
+theorem row_Start : structRowOK Start.views = true :=
+  _root_.Peppi.row_Start 
+
+/- from `Peppi.PremisesRow` -/
+open Extracted in
+theorem row_StateFlags : structRowOK StateFlags.views = true :=
+  _root_.Peppi.row_StateFlags 
+
+/- from `Peppi.PremisesRow` -/
+open Extracted in
+theorem row_TriggersPhysical : structRowOK TriggersPhysical.views = true :=
+  _root_.Peppi.row_TriggersPhysical 
+
+/- from `Peppi.PremisesRow` -/
+open Extracted in
+theorem row_Velocities : structRowOK Velocities.views = true :=
+  _root_.Peppi.row_Velocities 
+
+/- from `Peppi.PremisesRow` -/
+open Extracted in
+theorem row_Velocity : structRowOK Velocity.views = true :=
+  _root_.Peppi.row_Velocity 
 
 /- from `Peppi.Lemmas.C12Cols` -/
 open Extracted in
